@@ -63,6 +63,7 @@ def swap_coverage(m, f, _depth=0):
     if sd is None:
         return None
     covered = []
+    cover_ins = []
     for c in f.all_insts():
         if c.op != 'call' or not c.callee or c.is_intrinsic():
             continue
@@ -91,6 +92,7 @@ def swap_coverage(m, f, _depth=0):
                 n = sub[1]
         if n is not None:
             covered.append((off, off + n))
+            cover_ins.append(((off, off + n), c))
     # member-by-member exchange through typed temporaries: a.f := (old b.f) and b.f := (old a.f)
     def ty_size(ty):
         ty = (ty or '').strip()
@@ -130,12 +132,17 @@ def swap_coverage(m, f, _depth=0):
             (sa, lb), (sb, la) = h['$0'], h['$1']          # a.f := lb (old b.f) ; b.f := la (old a.f)
             if before(la, sa) and before(lb, sb):
                 covered.append((off, off + n))
+                cover_ins.append(((off, off + n), sa))
+                cover_ins.append(((off, off + n), sb))
             else:
                 problems.append('the member at offset %d is overwritten before its old value was read (both objects end up with the same value)' % off)
         else:
             who = 'first' if '$0' in h else 'second'
             problems.append('the member at offset %d of the %s object receives the other object\'s value but not vice versa' % (off, who))
     leaves = _leaf_ranges(mod, sname) or [(0, sd.get('size', 0))]
+    # an exchange that some path to the return skips is only complete if, where it is skipped, the members it would have
+    # exchanged are known to be equal already (`if (a->n != b->n) exchange n`) or both arguments are the same object
+    problems += _skipped_exchanges(f, mod, sname, leaves, cover_ins)
     missing = []
     for lo, hi in leaves:
         pos = lo
@@ -145,6 +152,51 @@ def swap_coverage(m, f, _depth=0):
         if pos < hi:
             missing.append((lo, hi))
     return sname, sd.get('size', 0), covered, missing, problems
+
+
+def _skipped_exchanges(f, mod, sname, leaves, cover_ins):
+    from ..ir import resolve_addr
+    from ..facts import FactCache, strip_bitcasts
+    out = []
+    rets = f.returns()
+    fc = None
+    for (lo, hi), ins in cover_ins:
+        if all(f.dominates(ins, r) for r in rets):
+            continue
+        fc = fc or FactCache(f)
+        can_reach = {b.idx for b in f.blocks if ins.block in f.reachable_from(b)}
+        for u in f.blocks:
+            if u.idx not in can_reach or u is ins.block:
+                continue
+            for v in u.succ:
+                if v.idx in can_reach or v is ins.block:
+                    continue
+                if v.insts and v.term is not None and v.term.op == 'unreachable':
+                    continue
+                facts = fc.edge_facts(u, v)
+                if ('eq', '$0', '$1') in facts or ('eq', '$1', '$0') in facts:
+                    continue
+                # every scalar member in the range must be known equal on this edge
+                need = [(a, b) for a, b in leaves if lo <= a and b <= hi]
+                okall = bool(need)
+                for a, b in need:
+                    ok = False
+                    for (op, x, y) in facts:
+                        if op != 'eq':
+                            continue
+                        xi, yi = (f.get(x) if isinstance(x, str) else None), (f.get(y) if isinstance(y, str) else None)
+                        if xi is None or yi is None or xi.op != 'load' or yi.op != 'load':
+                            continue
+                        ax, ay = resolve_addr(f, xi.o[0]), resolve_addr(f, yi.o[0])
+                        rx = strip_bitcasts(f, ax.root) if isinstance(ax.root, str) else ax.root
+                        ry = strip_bitcasts(f, ay.root) if isinstance(ay.root, str) else ay.root
+                        if {rx, ry} == {'$0', '$1'} and ax.coff == ay.coff == a:
+                            ok = True
+                    okall = okall and ok
+                if not okall:
+                    what = ', '.join(sorted({member_at(mod, sname, a) for a, b in (need or [(lo, hi)])}))
+                    out.append('the exchange of %s at %s is skipped on the way through %s although those members are not known to be equal there' % (what, ins.loc(), u.term.loc()))
+    return sorted(set(out))
 
 
 def member_at(mod, sname, off, depth=0):
@@ -307,3 +359,82 @@ def _reaches(f, a, b):
         # through a loop back to the same block
         return any(a.block in f.reachable_from(s) for s in a.block.succ)
     return b.block in f.reachable_from(a.block)
+
+
+# ---- the shipped (NDEBUG) build does what the assertion-enabled build does ---------------------------------------
+
+def _fn_has_effects(mod, name, seen=None, depth=0):
+    """may a call of `name` write memory other than its own locals (or is its body unknown)?"""
+    from ..ir import resolve_addr
+    seen = seen if seen is not None else set()
+    g = mod.fn(name) if name else None
+    if g is None or g.decl:
+        return True
+    if name in seen or depth > 6:
+        return False
+    seen.add(name)
+    for i in g.all_insts():
+        if i.op in ('atomicrmw', 'cmpxchg', 'fence'):
+            return True
+        if i.op == 'store':
+            r = resolve_addr(g, i.o[1]).root
+            ri = g.get(r) if isinstance(r, str) else None
+            if ri is None or ri.op != 'alloca':
+                return True
+        if i.op == 'call' and not i.is_intrinsic() and not i.x.get('noreturn'):
+            if i.callee is None or _fn_has_effects(mod, i.callee, seen, depth + 1):
+                return True
+    return False
+
+
+def check_assert_effects(m, rule, suffixes):
+    """An assertion must not do the program's work: every store, atomic operation and effectful call the assertion-enabled
+    build makes is also made by the NDEBUG build (the one that ships; the test-suite is built with assertions on).
+    `assert((x->count = n) >= k)` computes nothing when NDEBUG is defined."""
+    from ..ir import mem_access
+    try:
+        o = m.other_config()
+    except Exception as e:                                   # noqa: BLE001
+        rule.undecided('other-config', 'the %s build of the tree could not be modelled: %s' % ('assert' if m.config == 'release' else 'release', str(e)[:200]))
+        return
+    rel, asr = (m, o) if m.config == 'release' else (o, m)
+
+    def effects(mod, f, seen=()):
+        # compared on the units as compiled (no helper inlined, nothing optimised away), function by function
+        out = {}
+        for i in f.all_insts():
+            k = None
+            if i.op == 'store':
+                a = mem_access(i)
+                k = ('store', a[1].path if a else '', i.line)
+            elif i.op in ('atomicrmw', 'cmpxchg'):
+                k = (i.op, '', i.line)
+            elif i.op == 'call' and not i.is_intrinsic() and not i.x.get('noreturn'):
+                if i.callee is None or _fn_has_effects(mod, i.callee):
+                    k = ('call', i.callee or '*', i.line)
+            if k is not None:
+                out[k] = out.get(k, 0) + 1
+        return out
+    n = 0
+    for uname in sorted(asr.plain):
+        if uname not in rel.plain:
+            continue
+        am, rm = asr.raw(uname), rel.raw(uname)
+        for fa in am.defined():
+            if not (fa.file or '').endswith(tuple(suffixes)):
+                continue
+            fr = rm.fn(fa.name)
+            if fr is None or fr.decl:
+                continue
+            n += 1
+            ea, er = effects(am, fa), effects(rm, fr)
+            extra = sorted(k for k, c in ea.items() if c > er.get(k, 0))
+            if extra:
+                k = extra[0]
+                what = {'store': 'a store into %s' % (k[1] or 'memory'), 'call': 'a call of %s()' % k[1]}.get(k[0], 'an atomic operation')
+                rule.violation(fa.name, '%s at line %d is made only when assertions are enabled: the NDEBUG build (the one that ships) does not '
+                               'perform it, while the test-suite, built with assertions, does' % (what, k[2]), floc(m, fa), {'extra': [list(x) for x in extra[:5]]})
+            else:
+                rule.ok(fa.name, 'the NDEBUG build performs every store / effectful call of the assertion build', floc(m, fa))
+    if n == 0:
+        rule.undecided('assert-effects', 'no function of %s found in both configurations' % ', '.join(suffixes))
